@@ -59,6 +59,26 @@ func equalVM(ref *Value, got *ds.VMValue, path string, depth int) (bool, string)
 		if len(ad.List) != len(ref.Arr.List) {
 			return false, fmt.Sprintf("%s: array length %d, want %d", path, len(ad.List), len(ref.Arr.List))
 		}
+		if ref.Arr.orderMatters() {
+			// order unspecified: every reference element must match a distinct VM element
+			used := make([]bool, len(ad.List))
+			for i, e := range ref.Arr.List {
+				found := false
+				for j, g := range ad.List {
+					if used[j] {
+						continue
+					}
+					if ok, _ := equalVM(e, g, path, depth+1); ok {
+						used[j], found = true, true
+						break
+					}
+				}
+				if !found {
+					return false, fmt.Sprintf("%s: array (any order) lacks element %d = %s", path, i, Repr(e))
+				}
+			}
+			return true, ""
+		}
 		for i := range ad.List {
 			if ok, why := equalVM(ref.Arr.List[i], ad.List[i], fmt.Sprintf("%s[%d]", path, i), depth+1); !ok {
 				return false, why
